@@ -14,6 +14,7 @@ import (
 	"flag"
 	"fmt"
 	"os"
+	"os/exec"
 	"path/filepath"
 	"strings"
 	"sync/atomic"
@@ -146,9 +147,21 @@ func batch(args []string) {
 		if *maxWall > 0 && idx%16 == 0 && time.Since(start) > *maxWall {
 			break
 		}
-		atomic.StoreInt32(&simRunning, 1)
-		plan, ch, rep, runSeed := detsim.RunSeeded(e, *prop, *tier, *seed, idx)
-		atomic.StoreInt32(&simRunning, 0)
+		runSeed := detsim.Mix(*seed, *prop+"/"+*tier, idx)
+		plan := e.Gen(*prop, *tier, detsim.NewRand(runSeed))
+		var rep *detsim.RunReport
+		var rec []detsim.Choice
+		var subV *detsim.Violation
+		if fp, ok := e.(detsim.FreshProcesser); ok && fp.FreshProcess(plan) {
+			rep, rec, subV = runFresh(e, *prop, *tier, *seed, idx, runSeed, plan, *rdir)
+			res.Counters.Add("runs_in_a_fresh_process", 1)
+		} else {
+			ch := &detsim.SeedChooser{R: detsim.NewRand(runSeed ^ detsim.SchedSalt)}
+			atomic.StoreInt32(&simRunning, 1)
+			rep = e.Run(plan, ch)
+			atomic.StoreInt32(&simRunning, 0)
+			rec = ch.Rec
+		}
 		res.To = idx + 1
 		res.Runs++
 		res.Steps += int64(rep.Steps)
@@ -176,6 +189,8 @@ func batch(args []string) {
 		var vs []*detsim.Violation
 		if rep.V != nil {
 			vs = append(vs, rep.V)
+		} else if subV != nil {
+			vs = append(vs, subV)
 		}
 		if txt := rl.Grown(); txt != "" {
 			// the race detector reported during this run
@@ -190,7 +205,7 @@ func batch(args []string) {
 			seenSig[sig] = true
 			raw, _ := json.Marshal(plan)
 			rf := &detsim.ReplayFile{Property: *prop, Engine: e.Name(), Tier: *tier, BatchSeed: *seed, Index: idx, RunSeed: runSeed,
-				RepoTreeHash: *treeHash, Plan: raw, Choices: ch.Rec, Violation: v, EventLogHash: fmt.Sprintf("%016x", rep.LogHash)}
+				RepoTreeHash: *treeHash, Plan: raw, Choices: rec, Violation: v, EventLogHash: fmt.Sprintf("%016x", rep.LogHash)}
 			path := filepath.Join(*rdir, fmt.Sprintf("%s-%d-%d-%s.json", *prop, *seed, idx, v.Class))
 			if err := rf.Write(path); err != nil {
 				fmt.Fprintln(os.Stderr, "simworker:", err)
@@ -241,10 +256,20 @@ func replay(args []string) {
 	}
 	_ = trace
 	rl := detsim.NewRaceLog(raceLogPrefix())
-	ch := &detsim.ReplayChooser{List: rf.Choices, Strict: !*lenient}
+	var ch detsim.Chooser
+	rch := &detsim.ReplayChooser{List: rf.Choices, Strict: !*lenient}
+	sch := &detsim.SeedChooser{R: detsim.NewRand(rf.RunSeed ^ detsim.SchedSalt)}
+	ch = rch
+	if rf.Seeded {
+		ch = sch
+	}
 	atomic.StoreInt32(&simRunning, 1)
 	rep := e.Run(plan, ch)
 	atomic.StoreInt32(&simRunning, 0)
+	recorded := rch.Rec
+	if rf.Seeded {
+		recorded = sch.Rec
+	}
 	// a run can show a semantic violation and race reports; the one the file
 	// is about takes precedence
 	v := rep.V
@@ -259,15 +284,18 @@ func replay(args []string) {
 			v.Detail += "\n(the race detector also reported: " + strings.Join(rv.Subs, ", ") + ")"
 		}
 	}
-	if ch.Err != nil {
-		fmt.Println("REPLAY-DIVERGED", ch.Err)
+	if rch.Err != nil {
+		fmt.Println("REPLAY-DIVERGED", rch.Err)
 	}
 	hash := fmt.Sprintf("%016x", rep.LogHash)
 	if *out != "" {
 		o := *rf
-		o.Choices = ch.Rec
+		o.Choices = recorded
 		o.Violation = v
 		o.EventLogHash = hash
+		o.Seeded = false
+		rep.V = nil
+		o.Report = rep
 		o.Write(*out)
 	}
 	if v == nil {
@@ -309,7 +337,11 @@ func shrink(args []string) {
 		os.Exit(2)
 	}
 	var test detsim.Tester
-	if *sub || rf.Violation.Class == "race" {
+	fresh := false
+	if fp, ok := e.(detsim.FreshProcesser); ok && fp.FreshProcess(plan) {
+		fresh = true
+	}
+	if *sub || fresh || rf.Violation.Class == "race" {
 		test = detsim.SubprocessTester(e, rf, filepath.Dir(*out), rf.Violation)
 	} else {
 		inner := detsim.InProcessTester(e, rf.Violation)
@@ -344,4 +376,43 @@ func shrink(args []string) {
 	}
 	o.Write(*out)
 	fmt.Printf("SHRINK steps=%d choices=%d->%d\n", steps, len(rf.Choices), len(rec))
+}
+
+// runFresh hands one run to a fresh process of this binary (plans that need
+// the library's pristine built-in state).
+func runFresh(e detsim.Engine, prop, tier string, seed, idx, runSeed uint64, plan interface{}, dir string) (*detsim.RunReport, []detsim.Choice, *detsim.Violation) {
+	raw, _ := json.Marshal(plan)
+	in := filepath.Join(dir, fmt.Sprintf("fresh-%d-%d.json", os.Getpid(), idx))
+	outp := in + ".out"
+	defer os.Remove(in)
+	defer os.Remove(outp)
+	rf := &detsim.ReplayFile{Property: prop, Engine: e.Name(), Tier: tier, BatchSeed: seed, Index: idx, RunSeed: runSeed, Plan: raw, Seeded: true}
+	if err := rf.Write(in); err != nil {
+		fmt.Fprintln(os.Stderr, "simworker:", err)
+		os.Exit(2)
+	}
+	cmd := exec.Command(os.Args[0], "replay", "-out", outp, in)
+	env := os.Environ()
+	if pfx := raceLogPrefix(); pfx != "" {
+		env = append(env, "GORACE=halt_on_error=0 exitcode=66 history_size=7 log_path="+in+".race")
+		defer func() {
+			m, _ := filepath.Glob(in + ".race.*")
+			for _, f := range m {
+				os.Remove(f)
+			}
+		}()
+	}
+	cmd.Env = env
+	outb, err := cmd.CombinedOutput()
+	if ee, ok := err.(*exec.ExitError); err != nil && (!ok || (ee.ExitCode() != 1 && ee.ExitCode() != 66)) {
+		fmt.Fprintf(os.Stderr, "simworker: fresh-process run failed: %v\n%s\n", err, outb)
+		os.Exit(2)
+	}
+	res, err := detsim.ReadReplay(outp)
+	if err != nil || res.Report == nil {
+		fmt.Fprintf(os.Stderr, "simworker: fresh-process run wrote no report: %v\n%s\n", err, outb)
+		os.Exit(2)
+	}
+	fmt.Sscanf(res.EventLogHash, "%x", &res.Report.LogHash)
+	return res.Report, res.Choices, res.Violation
 }
